@@ -10,9 +10,12 @@ Driver ops for C11/C12 (delta family).  `st` is the carquet status code (0 = OK)
   dbp_dec32 data=x.. n=N [gram=1] | st=S vals=<..> consumed=N       carquet_delta_decode_int32
   dbp_dec64 data=x.. n=N [gram=1] | st=S vals=<..> consumed=N       carquet_delta_decode_int64
   dl_enc vals=<x..,x..> | st=S out=x.. [p_rt=]                      carquet_delta_length_encode
-  dl_dec data=x.. n=N [gram=1] | st=S vals=<x..,..> consumed=N      carquet_delta_length_decode
+  dl_dec data=x.. n=N [gram=1] | st=S vals=<x..,..> consumed=N [offs=<values[i].data - data>]   carquet_delta_length_decode
   ds_enc vals=<x..,x..> | st=S out=x.. [p_rt=]                      carquet_delta_strings_encode
-  ds_dec data=x.. n=N work=N [gram=1] | st=S vals=<x..,..> consumed=N   carquet_delta_strings_decode
+  ds_dec data=x.. n=N work=N [gram=1] | st=S vals=<x..,..> consumed=N [woffs=<values[i].data - work>]  carquet_delta_strings_decode
+  dl_big lens=<n,..> fill=B | st=S size=N head=x.. [p_data= p_rt=]      carquet_delta_length_encode on values
+  ds_big lens=<n,..> fill=B | st=S size=N head=x.. [p_data= p_rt=]      carquet_delta_strings_encode  too long to print:
+      value i is lens[i] bytes, all equal to B; `head` = the first ≤ 200+24n bytes of the output, `size` its length
 `gram=1`: the bytes were produced by the harness's own writer following the format document
 (all varints minimal), so a 128/4 stream must be accepted.
 -/
@@ -70,8 +73,36 @@ def writerCheck (W : Nat) (data : List UInt8) : Option (List Int) → List (Stri
 
 def parseStrs (s : String) : Option (List (List UInt8)) := parseList parseHex s
 
+/-- prefix lengths of strings that all consist of the same byte: min of neighbouring lengths -/
+def uniformPrefixes : Option Nat → List Nat → List Nat
+  | _, [] => []
+  | none, x :: xs => 0 :: uniformPrefixes (some x) xs
+  | some p, x :: xs => min p x :: uniformPrefixes (some x) xs
+
+/-- `dl_big` / `ds_big`: the model is evaluated on the lengths alone (`encodeLens`); the tie compares
+status, the length-stream bytes at the head of the output and the output size.  Property side (C11):
+the API accepts every non-empty list of byte arrays (lengths < 2^31), so the encoder must succeed —
+`encode_accepts_legal_input` — and the real decoder must give the input back (`p_rt`, C side). -/
+def bigVerdict (m : Except Status (List UInt8)) (dataLen : Nat) (lens : List Nat) (st size : Nat) (head : List UInt8) : Verdict :=
+  verdict [("impl_status", stCode m == st),
+           ("impl_length_streams", st != 0 || ((outBytes m).length ≤ head.length && head.take (outBytes m).length == outBytes m)),
+           ("impl_size", st != 0 || size == (outBytes m).length + dataLen)]
+    [("encode_accepts_legal_input", !(0 < lens.length && lens.all (· < 2147483648)) || st == 0)]
+
 def handle (l : Line) : Option Verdict :=
   match l.op with
+  | "dl_big" => some <|
+    match l.inNats "lens", l.outNat "st", l.outNat "size", l.outHex "head" with
+    | some lens, some st, some size, some head =>
+      bigVerdict (Impl.DeltaLength.encodeLens lens) lens.sum lens st size head
+    | _, _, _, _ => .bad "dl_big args"
+  | "ds_big" => some <|
+    match l.inNats "lens", l.outNat "st", l.outNat "size", l.outHex "head" with
+    | some lens, some st, some size, some head =>
+      let pl := uniformPrefixes none lens
+      let sl := List.zipWith (fun x p => x - p) lens pl
+      bigVerdict (Impl.DeltaStrings.encodeLens pl sl) sl.sum lens st size head
+    | _, _, _, _ => .bad "ds_big args"
   | "dbp_enc32" => some <|
     match l.inInts "vals", l.inNat "cap", l.outNat "st", l.outHex "out" with
     | some vals, some cap, some st, some out =>
@@ -120,7 +151,13 @@ def handle (l : Line) : Option Verdict :=
     | some data, some n, some st, some vals, some consumed =>
       let m := Impl.DeltaLength.decode data n
       verdict [("impl_status", stCode m == st),
-               ("impl_values", st != 0 || m == .ok (vals, consumed))]
+               ("impl_values", st != 0 || m == .ok (vals, consumed)),
+               -- the returned pointers (offsets into the input) are those of the instrumented model (C08)
+               ("impl_slices", st != 0 || (match l.outInts "offs", Impl.DeltaLength.decodeSlices data n with
+                  | some offs, .ok (sl, c) => sl.map (fun ol => (ol.1 : Int)) == offs && c == consumed &&
+                      sl.map Prod.snd == vals.map List.length
+                  | none, _ => true
+                  | _, _ => false))]
         (match Spec.Delta.decodeLengthByteArray data with
          | .error _ => []
          | .ok (vs, rest) =>
@@ -143,7 +180,13 @@ def handle (l : Line) : Option Verdict :=
     | some data, some n, some work, some st, some vals, some consumed =>
       let m := Impl.DeltaStrings.decode data n work
       verdict [("impl_status", stCode m == st),
-               ("impl_values", st != 0 || m == .ok (vals, consumed))]
+               ("impl_values", st != 0 || m == .ok (vals, consumed)),
+               -- destinations in the work buffer are those of the instrumented model (C08)
+               ("impl_accesses", st != 0 || (match l.outInts "woffs", Impl.DeltaStrings.decodeAcc data n work with
+                  | some woffs, .ok (accs, c) => accs.map (fun a => (a.workOff : Int)) == woffs && c == consumed &&
+                      accs.map (fun a => a.pre + a.suf) == vals.map List.length
+                  | none, _ => true
+                  | _, _ => false))]
         (match Spec.Delta.decodeByteArray data with
          | .error _ => []
          | .ok (vs, rest) =>
